@@ -298,7 +298,9 @@ def main(tier, only=None):
                         if "clear_untrusted_proxy_headers" in kw and adj.clear_untrusted_proxy_headers != ref_bool(kw["clear_untrusted_proxy_headers"]):
                             run.violation("applied:clear", f"{rep}", {"kw": rep})
         # unknown names
-        for name in ("bogus", "Host", "hosts", "listen ", "trusted-proxy", "", "threads_"):
+        for name in ("bogus", "Host", "hosts", "listen ", "trusted-proxy", "", "threads_",
+                     # names that exist as attributes of the class without being adjustments
+                     "socket_options", "parse_args", "_param_map", "_params", "check_sockets", "__init__", "__dict__"):
             n += 1
             adj, err = make(Adjustments, {name: "1"})
             if err is None:
